@@ -320,7 +320,7 @@ def main():
                 kfuts = [ex.submit(kani_unit.analyse, k, a.repo, scratch, a.tier, seed, cfg, prop) for k in kunits]
             results = [f.result() for f in futs] + [f.result() for f in kfuts]
         extra_results = []
-        if a.tier == "thorough" and pcfg.get("thorough_extra"):
+        if a.tier == "thorough" and pcfg.get("thorough_extra", True):
             import thorough
             extra_results = thorough.run(prop, pcfg, a.repo, scratch, seed, cfg)
         # ---- classify
